@@ -18,7 +18,9 @@ Thunk(body) == Lam(<<>>, "", <<>>, body)
 \* the world of libraries: name -> [imports, body, exports <<internal, external>>]
 World ==
   ("counter" :> [imports |-> <<>>,
-                 body |-> <<Define("n", Num(0)),
+                 \* start: an exported variable the body assigns again at its very end - what is exported is the binding
+                 \* the finished body leaves, wherever the export declaration stands
+                 body |-> <<Define("start", Num(100)), Define("n", Num(0)),
                             Define("bump", Thunk(<<Inc("n"), Var("n")>>)),            \* not exported
                             Define("next!", Thunk(<<Call("bump", <<>>)>>)),
                             Define("peek", Thunk(<<Var("n")>>)),
@@ -27,15 +29,18 @@ World ==
                             Define("leak", Thunk(<<Var("importer-var")>>)),             \* free name the importer may define
                             \* two definitions exported under each other's names, and a procedure that reads them
                             Define("a-val", Quote(MkSym("internal-a"))), Define("b-val", Quote(MkSym("internal-b"))),
-                            Define("get-ab", Thunk(<<Call("list", <<Var("a-val"), Var("b-val")>>)>>))>>,
+                            Define("get-ab", Thunk(<<Call("list", <<Var("a-val"), Var("b-val")>>)>>)),
+                            Set("start", Num(7))>>,
                  \* external names may collide with internal ones: peek is exported as bump (the unexported bump stays what
                  \* next! calls), a-val and b-val swap names; none of this changes anything INSIDE the library
                  exports |-> << <<"next!", "next!">>, <<"peek", "peek">>, <<"show", "show">>, <<"leak", "leak">>, <<"bump", "renamed-bump">>,
-                                <<"peek", "bump">>, <<"a-val", "b-val">>, <<"b-val", "a-val">>, <<"get-ab", "get-ab">> >>])
+                                <<"peek", "bump">>, <<"a-val", "b-val">>, <<"b-val", "a-val">>, <<"get-ab", "get-ab">>, <<"start", "start">> >>])
   @@ ("user" :> [imports |-> <<"counter">>,
                  body |-> <<Define("use-counter", Thunk(<<Call("next!", <<>>)>>)),
-                            Define("helper", Thunk(<<Quote(MkSym("user-helper"))>>))>>,
-                 exports |-> << <<"use-counter", "use-counter">> >>])
+                            Define("helper", Thunk(<<Quote(MkSym("user-helper"))>>)),
+                            \* the library redefines a name it imported and exports ITS definition
+                            Define("peek", Thunk(<<Quote(MkSym("user-peek"))>>))>>,
+                 exports |-> << <<"use-counter", "use-counter">>, <<"peek", "u-peek">> >>])
 LibNames == {"counter", "user"}
 
 RECURSIVE RunSteps(_, _)
@@ -79,7 +84,7 @@ ImportChoices == { <<<<"counter">>, <<"">>>>, <<<<"user">>, <<"">>>>, <<<<"count
 Ops == {Call("next!", <<>>), Call("use-counter", <<>>), Call("peek", <<>>), Call("show", <<>>), Call("leak", <<>>), Call("c:next!", <<>>),
         Define("helper", Thunk(<<Quote(MkSym("importer-helper"))>>)), Call("helper", <<>>),
         Define("next!", Thunk(<<Quote(MkSym("fake"))>>)), Define("importer-var", Num(5)),
-        Call("bump", <<>>), Var("n"), Call("renamed-bump", <<>>), Var("a-val"), Var("b-val"), Call("get-ab", <<>>)}
+        Call("bump", <<>>), Var("n"), Call("renamed-bump", <<>>), Var("a-val"), Var("b-val"), Call("get-ab", <<>>), Var("start"), Call("u-peek", <<>>)}
 
 VARIABLES imp, st, hist
 vars == <<imp, st, hist>>
@@ -107,10 +112,11 @@ LibraryFramesAreRoots == \A n \in DOMAIN st.insts : st.m.frames[st.insts[n]].par
 \* the state kept inside (counter) is what all importers see: peek equals the number of next!/use-counter/c:next!/renamed-bump calls
 CounterCalls == Len(SelectSeq(hist, LAMBDA h : h.r.k = "value" /\ h.form.t = "app" /\ h.form.f.t = "var"
                                                  /\ h.form.f.x \in {"next!", "use-counter", "c:next!", "renamed-bump"} /\ h.r.v.t = "int"))
+Bumps == {Call(x, <<>>) : x \in {"next!", "use-counter", "c:next!", "renamed-bump"}}      \* (when they still denote the library's procedures)
 Peeks == {Call("peek", <<>>), Call("bump", <<>>)}       \* (the importer's bump is the library's peek)
 SharedState == \A i \in DOMAIN hist :
    (hist[i].form \in Peeks /\ hist[i].r.k = "value") =>
-      hist[i].r.v = MkInt(Len(SelectSeq(SubSeq(hist, 1, i), LAMBDA h : h.r.k = "value" /\ h.r.v.t = "int" /\ h.form \notin Peeks)))
+      hist[i].r.v = MkInt(Len(SelectSeq(SubSeq(hist, 1, i), LAMBDA h : h.r.k = "value" /\ h.r.v.t = "int" /\ h.form \in Bumps)))
 Emit == Len(hist) = MaxOps => PrintT(<<"VEC", ToJson([imports |-> imp[1], prefixes |-> imp[2], hist |-> hist,
                                                           world |-> [n \in {"counter", "user"} |-> [name |-> n, imports |-> World[n].imports, body |-> World[n].body, exports |-> World[n].exports]]])>>)
 =============================================================================
